@@ -5,7 +5,7 @@ dataReceived(data) must deliver exactly F(len, buf ++ data) and leave (Rl, Rb)(l
 Chunking independence (lemma, induction on the number of frames stated, step = these contracts):
    F(s ++ c1 ++ c2) = F(s ++ c1) ++ F(R(s ++ c1) ++ c2)."""
 from .base import *
-from . import c11_farm
+from . import c11_farm, c04_complete
 
 BUF, LEN, BLEN, DELIV = 'Hand._Hand__buf', 'Hand._Hand__len', 'Hand._Hand__blen', 'Hand.ghost_delivered'
 OI = Opt(INT)
@@ -83,6 +83,14 @@ def _deliver(ex, args, line):
 c11_farm.hand_process.on_call = staticmethod(_deliver)
 hand_data_received = framing_contract('dawgie/pl/farm.py', 'Hand.dataReceived', HAND, BUF, LEN, BLEN, DELIV, c11_farm.hand_process.modifies,
                                       'while length <= len(self.__buf)')
+
+
+def _peer(c):
+    b = z3.Const('pw_b', BYTES.sort())
+    return [QHyp([b], c11_farm.wellformed_reply(loads_fn(b)), 'peer.replies-are-well-formed', triggers=[(loads_fn, 0)])]
+
+
+hand_data_received.assumes = hand_data_received.assumes + [_peer]
 
 
 def _log_handle(ex, recv, args, kwargs, line):
